@@ -625,9 +625,23 @@ class ExprMixin(object):
             return self.merge_values([a, b], [cond, z3.Not(cond)])
         v = self.merge_values([a, b], [cond, z3.Not(cond)])
         if v is POISON:
-            # only truthiness can be tracked
+            # `x or <bound method / function>` (a default callback): the python-side callable becomes an opaque,
+            # truthy function object; calls through the merged value need a call-site contract
+            boxed = []
+            for x in (a, b):
+                if x.z is None and x.kind == "callable":
+                    obj = self.u.fresh_val("callable")
+                    f = self.u.uf("is_callable", self.u.Val, self.u.Bool)
+                    self._pending_facts.append(z3.And(self.u.is_R(obj), f(obj)))
+                    boxed.append(SV(obj))
+                else:
+                    boxed.append(x)
+            if all(x.z is not None for x in boxed):
+                return self.merge_values(boxed, [cond, z3.Not(cond)])
             raise Undecided("and/or over python-side values")
         return v
+
+    _pending_facts = []
 
     def e_IfExp(self, node, st, acc):
         st, c = self.eval(node.test, st, acc)
